@@ -71,6 +71,9 @@ inductive Mutation
   | changeUnique (t n : String) (cols : List String)
   | addFk (t : String) (f : Fk)
   | dropFk (t n : String)
+  /-- "table removed" for a table other tables reference: the model drops the table together with the
+      foreign keys of the remaining tables that point to it (`dropCols`: and their referencing columns) -/
+  | dropTableRefs (t : String) (dropCols : Bool)
   deriving DecidableEq, Repr, Inhabited
 
 def updT (s : Schema) (t : String) (f : Table → Table) : Schema :=
@@ -98,6 +101,11 @@ def Mutation.apply : Mutation → Schema → Schema
     updT s t (fun x => { x with uqs := x.uqs.map (fun i => if i.name == n then { i with cols := cols } else i) })
   | .addFk t f, s => updT s t (fun x => { x with fks := x.fks ++ [f] })
   | .dropFk t n, s => updT s t (fun x => { x with fks := x.fks.filter (fun i => i.name != n) })
+  | .dropTableRefs t dropCols, s =>
+    (s.filter (fun x => x.name != t)).map (fun x =>
+      let refs := x.fks.filter (fun f => f.reftable == t)
+      { x with fks := x.fks.filter (fun f => f.reftable != t),
+               cols := if dropCols then x.cols.filter (fun c => !(refs.any (fun f => f.cols.contains c.name))) else x.cols })
 
 def findFk (s : Schema) (t n : String) : Option Fk :=
   (findTable s t).bind (fun x => x.fks.find? (fun f => f.name == n))
@@ -122,6 +130,10 @@ def expected (a : Schema) : Mutation → List OpS
     match findFk a t n with
     | some f => [⟨.removeFk, .fk t f.cols f.reftable f.refcols⟩]
     | none => []
+  | .dropTableRefs t _ =>
+    ⟨.removeTable, .table t⟩ ::
+      a.flatMap (fun x => if x.name == t then [] else
+        (x.fks.filter (fun f => f.reftable == t)).map (fun f => ⟨.removeFk, .fk x.name f.cols f.reftable f.refcols⟩))
 
 /-- the object a change is about; a table change touches everything inside the table -/
 def touches (a : Schema) (m : Mutation) (o : Obj) : Bool :=
@@ -144,6 +156,12 @@ def touches (a : Schema) (m : Mutation) (o : Obj) : Bool :=
     match findFk a t n with
     | some f => o == .fk t f.cols f.reftable f.refcols
     | none => false
+  | .dropTableRefs t dropCols =>
+    o.tableName == t ||
+    (match o with
+     | .fk _ _ rt _ => rt == t
+     | .column t' c => dropCols && a.any (fun x => x.name == t' && x.fks.any (fun f => f.reftable == t && f.cols.contains c))
+     | _ => false)
 
 /-- C07 on one (base, change, reported ops) triple -/
 def detectOk (a : Schema) (m : Mutation) (ops : List OpS) : Bool :=
